@@ -1,11 +1,138 @@
 import Kio.Proofs.Codec
 import Kio.Proofs.SpecEq
 import Kio.Spec.Foreign
+import Kio.Proofs.ForeignTagged
 /-!
 The reader accepts every conforming *foreign* encoding (C03): explicitly sent defaults (incl.
 explicit nulls of nullable tagged fields) and unknown tagged fields at every nesting level.
 -/
 namespace Kio
+
+theorem Fields.avoids_mem {ts : List Nat} {fs : List Field} (h : Spec.Fields.avoids ts fs = true)
+    {f : Field} (hf : f ∈ fs) : Spec.Field.avoids ts f = true := by
+  induction fs with
+  | nil => cases hf
+  | cons a as ih =>
+    simp only [Spec.Fields.avoids, Bool.and_eq_true] at h
+    rcases List.mem_cons.mp hf with rfl | hf
+    · exact h.1
+    · exact ih h.2 hf
+
+theorem Field.avoids_tag {ts : List Nat} {f : Field} (h : Spec.Field.avoids ts f = true)
+    {t : Nat} (ht : f.tagNat = some t) : t ∉ ts := by
+  cases f with
+  | mk m sh =>
+    simp only [Spec.Field.avoids, Bool.and_eq_true] at h
+    have h1 := h.1
+    simp only [Field.tagNat, FieldMeta.tagNat] at ht
+    rcases opt_cases m.tag with htag | ⟨i, htag⟩
+    · rw [htag] at ht; cases ht
+    · rw [htag] at ht h1
+      simp only [Option.map_some, Option.some.injEq] at ht
+      subst ht
+      simpa using h1
+
+theorem Field.default_spec (env : Env) (ht : env.time = TimeCfg.repaired) (flex rh : Bool)
+    (f : Field) (hwf : Field.wf env flex rh f = true) (htg : f.isTagged = true) :
+    Spec.defaultOfField f = some (Field.dflt env f) := by
+  have heq := Field.default_eq env ht flex rh f hwf
+  cases f with
+  | mk m sh =>
+    obtain ⟨_, _, hd⟩ := Field.wf_elim hwf
+    simp only [Field.isTagged] at htg
+    have hnone : m.tag.isNone = false := by
+      rcases opt_cases m.tag with h | ⟨i, h⟩ <;> rw [h] at htg ⊢
+      · cases htg
+      · rfl
+    rw [hnone, Bool.false_or] at hd
+    obtain ⟨d, hd⟩ := ok_of_isSome hd
+    rw [hd] at heq
+    unfold Field.dflt
+    rw [hd]
+    exact heq.symm
+
+theorem fieldSpecF_tagged (env : Env) (pat : Spec.ForeignPat) (flex rh tagged : Bool) (f : Field)
+    (v : Value) (hwf : Field.wf env flex rh f = true) (htg : f.isTagged = true) :
+    fieldSpecF pat flex rh tagged f v = Spec.fieldBytesF pat flex tagged f.meta f.shape v := by
+  cases f with
+  | mk m sh =>
+    obtain ⟨_, hsh, _⟩ := Field.wf_elim hwf
+    simp only [Field.isTagged] at htg
+    rw [fieldSpecF]
+    cases hc : (rh && m.isClientId)
+    · simp only [Bool.false_eq_true, if_false, Field.meta, Field.shape]
+    · rw [hc] at hsh
+      simp only [if_true] at hsh
+      have h1 := hsh.1
+      rcases opt_cases m.tag with h | ⟨i, h⟩ <;> rw [h] at htg h1
+      · cases htg
+      · cases h1
+
+theorem schema_F (env : Env) (ht : env.time = TimeCfg.repaired)
+    (hskip : env.skipUnknownTags = true) (pat : Spec.ForeignPat) (hpat : pat.ok = true)
+    (n : Nat) (flex rh : Bool) (fs : List Field)
+    (ih : ∀ f ∈ fs, FieldF env pat f) : SchemaF env pat (.mk n flex rh fs) := by
+  intro v bs hwf hav hvo he rest
+  obtain ⟨vs, rfl⟩ := Schema.valueOk_entity hvo
+  rw [Schema.valueOk.eq_1] at hvo
+  obtain ⟨hlen, hvz⟩ := Fields.valueOk_zip hvo
+  simp only [Schema.wf, Bool.and_eq_true] at hwf
+  obtain ⟨⟨hfs, hany⟩, hdup⟩ := hwf
+  have hn : (fs.filterMap Field.tagNat).Nodup := by
+    simpa [dupTags] using hdup
+  rw [Spec.Schema.avoids] at hav
+  have hfrt : ∀ (tagged : Bool), ∀ p ∈ fs.zip vs, p.1.isTagged = tagged → ∀ payload,
+      fieldSpecF pat flex rh tagged p.1 p.2 = some payload →
+      ∀ rest, Field.read env flex rh tagged p.1 (payload ++ rest) = .ok (p.2, rest) := by
+    intro tagged p hp htg payload hpay rest'
+    have hmem := (List.of_mem_zip hp).1
+    exact ih p.1 hmem flex rh tagged p.2 payload htg.symm (Fields.wf_mem hfs hmem)
+      (Fields.avoids_mem hav hmem) (hvz p hp) hpay rest'
+  rw [Spec.structF] at he
+  obtain ⟨a, ha, he⟩ := Option.bind_eq_some_iff.1 he
+  have hun := fun rest' => Fields.readUntagged_F env pat flex rh fs vs (hfrt false) a ha rest'
+  rw [Schema.read]
+  cases flex
+  · simp only [Bool.false_eq_true, if_false] at he
+    have he := Option.some.inj he
+    subst he
+    simp only [hun rest, bind, Except.bind, Bool.not_false, if_true, pure, Except.pure]
+    rw [assemble_eq env [] fs vs hlen]
+    intro p hp t ht
+    exfalso
+    have hmem := (List.of_mem_zip hp).1
+    simp only [Bool.or_false, Bool.not_eq_true', List.any_eq_false] at hany
+    have := hany p.1 hmem
+    rw [Field.isTagged_eq, ht] at this
+    simp at this
+  · simp only [if_true] at he
+    obtain ⟨entries, hi, he⟩ := Option.bind_eq_some_iff.1 he
+    by_cases hc : (Spec.ascending (entries ++ Spec.unknownEntries pat)).length < 2 ^ 35
+    · rw [if_pos hc] at he
+      have he := Option.some.inj he
+      subst he
+      obtain ⟨acc, hloop, hacc⟩ := tagged_section_F env pat hpat true rh fs vs hn
+        (fun f hf => Fields.wf_mem hfs hf)
+        (fun f hf t ht => Field.avoids_tag (Fields.avoids_mem hav hf) ht)
+        (fun f hf htg => Field.default_spec env ht true rh f (Fields.wf_mem hfs hf) htg)
+        hvz
+        (fun p hp htg payload hpay rest' => hfrt true p hp htg payload
+          (by rw [fieldSpecF_tagged env pat true rh true p.1 p.2
+                (Fields.wf_mem hfs (List.of_mem_zip hp).1) htg]; exact hpay) rest')
+        entries hi rest
+      simp only [List.append_assoc, hun, bind, Except.bind, Bool.not_true, Bool.false_eq_true, if_false]
+      rw [← encVarint_eq_spec, varint_roundtrip 4 _ (by rw [pow128_5]; exact hc)]
+      simp only [hskip, hloop, pure, Except.pure]
+      rw [assemble_eq env acc fs vs hlen hacc]
+    · rw [if_neg hc] at he; cases he
+
+theorem Schema.accepts_foreign_all (env : Env) (ht : env.time = TimeCfg.repaired)
+    (hskip : env.skipUnknownTags = true) (hnull : env.nullableTaggedReader = true)
+    (pat : Spec.ForeignPat) (hpat : pat.ok = true) : ∀ s, SchemaF env pat s :=
+  Schema.induct3 (PS := SchemaF env pat) (PF := FieldF env pat) (PSh := ShapeF env pat)
+    (schema_F env ht hskip pat hpat) (field_F env ht pat) (shape_prim_F env ht hnull pat)
+    (shape_primArr_F env ht pat) (shape_ent_F env pat) (shape_entArr_F env pat)
+    (by intro flex tagged m v bs _ hwf; simp [Shape.wf] at hwf)
 
 theorem Schema.accepts_foreign (env : Env) (ht : env.time = TimeCfg.repaired)
     (hskip : env.skipUnknownTags = true) (hnull : env.nullableTaggedReader = true)
@@ -14,7 +141,7 @@ theorem Schema.accepts_foreign (env : Env) (ht : env.time = TimeCfg.repaired)
     (havoid : Spec.Schema.avoids (pat.unknown.map (·.1)) s = true)
     (w : Value) (hw : s.valueOk env w = true) (bs : Bytes)
     (h : Spec.structF pat s w = some bs) (rest : Bytes) :
-    s.read env (bs ++ rest) = .ok (w, rest) := by
-  sorry
+    s.read env (bs ++ rest) = .ok (w, rest) :=
+  Schema.accepts_foreign_all env ht hskip hnull pat hpat s w bs hwf havoid hw h rest
 
 end Kio
